@@ -30,7 +30,7 @@ BUDGET = {'quick': 45, 'thorough': 1200}
 MIN_NONTRIVIAL = {'quick': 1500, 'thorough': 60000}
 REQUIRED_COUNTERS = {'quick': ['programs_compared', 'calls_compared', 'failing_programs'], 'thorough': ['programs_compared', 'calls_compared', 'failing_programs', 'subprocess_validations']}
 
-NOT_STUDENT = {'__builtins__', '__name__', 'input', 'compile', 'eval', 'exec', 'globals', 'exit', 'open', '__import__'}
+NOT_STUDENT = {'__builtins__', '__name__', '__warningregistry__', 'input', 'compile', 'eval', 'exec', 'globals', 'exit', 'open', '__import__'}
 PLANTS = ["boom = [1, 2][7]", "boom = {'a': 1}['zz']", "boom = 1 // 0", "boom = int('x1')", "boom = undefined_name + 1",
           "boom = 'a' + 1", "boom = None.attr", "raise ValueError('planted')", "assert False, 'planted'",
           "import sys\nsys.exit(3)", "raise SystemExit", "boom = len(5)", "boom = [].pop()", "boom = float('abc')",
@@ -117,7 +117,7 @@ def describe(v, depth=0):
         return 'object:' + type(v).__name__
 
 
-def reference_run(src, inputs):
+def reference_run(src, inputs, ns=None):
     q = list(inputs)
 
     def fake_input(prompt=''):
@@ -125,7 +125,9 @@ def reference_run(src, inputs):
         return q.pop(0) if q else '0'
     b = dict(vars(builtins))
     b['input'] = fake_input
-    ns = {'__name__': '__main__', '__builtins__': b}
+    if ns is None:
+        ns = {'__name__': '__main__'}
+    ns['__builtins__'] = b
     buf = io.StringIO()
     exc = None
     line = None
@@ -223,6 +225,23 @@ def check_program(ctx, case):
     if ctx.evaluations % 173 == 0:
         ctx.sample({'src': src[:700], 'inputs': inputs, 'cpython': {'output': ref_out[-200:], 'exception': want, 'line': ref_line},
                     'sandbox': {'output': out[-200:], 'exception': got}})
+    # ---- the same program again with another input queue (the first one may have left unread inputs) ----
+    if 'input(' in src and case.get('inputs2') is not None:
+        ref_ns2, ref_out2, ref_exc2, ref_line2, ref_left2 = reference_run(src, case['inputs2'], ns=ref_ns)   # the sandbox namespace persists too
+        sbx.clear_output()
+        try:
+            sbx.run(inputs=list(case['inputs2']))
+        except BaseException:
+            return
+        ctx.count('second_runs_with_new_inputs')
+        out2 = sbx.get_raw_output()
+        if out2 != ref_out2:
+            ctx.violation('C06|output-differs-on-second-run-with-new-inputs', case,
+                          'inputs %r then %r: CPython %r\n sandbox %r' % (inputs, case['inputs2'], ref_out2[-300:], out2[-300:]))
+            return
+        ref_ns = ref_ns2
+        if type(ref_exc2) is not type(ref_exc):
+            return
     # ---- calls -----------------------------------------------------------------------------------------
     if ref_exc is not None:
         return
@@ -300,7 +319,7 @@ def call_once(ctx, case, sandbox, ref_ns, fname, label, argsrc, rng):
     leaked = [k for k in keys_after - keys_before if k.startswith('_temporary_')]
     if leaked:
         ctx.violation('C06|temporaries-not-purged', dict(case, call=sub), leaked)
-    extra = keys_after - keys_before - {target} - set(leaked)
+    extra = keys_after - keys_before - {target} - set(leaked) - {'__warningregistry__'}   # CPython's own warning bookkeeping
     if extra:
         ctx.violation('C06|call-left-new-names', dict(case, call=sub), sorted(extra))
     # globals still equal after the call (mutations through arguments, target binding)
@@ -338,7 +357,10 @@ def subprocess_validate(ctx, src, inputs):
         if p.stdout != ref_out:
             ctx.inconclusive('harness reference disagrees with a real python process on output: %r vs %r' % (p.stdout[-200:], ref_out[-200:]))
         failed = p.returncode != 0
-        if failed != (ref_exc is not None):
+        expect_failed = ref_exc is not None
+        if isinstance(ref_exc, SystemExit):
+            expect_failed = bool(ref_exc.code)
+        if failed != expect_failed:
             ctx.inconclusive('harness reference disagrees with a real python process on outcome (rc=%s, ref=%r)' % (p.returncode, ref_exc))
     finally:
         import shutil
@@ -371,7 +393,11 @@ def run(ctx):
         planted = rng.random() < 0.45
         if planted:
             src = plant(rng, src)
-        case = {'src': src, 'inputs': list(p.inputs) if rng.random() < 0.8 else list(p.inputs)[:-1], 'functions': [list(f) for f in p.functions],
+        ins = list(p.inputs) if rng.random() < 0.8 else list(p.inputs)[:-1]
+        if rng.random() < 0.5:
+            ins = ins + ['extra1', '77']
+        case = {'src': src, 'inputs': ins, 'inputs2': [str(rng.randrange(1, 30)) for _ in range(rng.randint(0, len(p.inputs) + 1))],
+                'functions': [list(f) for f in p.functions],
                 'features': sorted(p.features), 'planted': planted, '_rng': rng}
         check_program(ctx, case)
         if i < nval:
